@@ -1,7 +1,7 @@
 (** C06 — flushed data survives; a crash never exposes a half-applied write.  PARTIAL:
     redb (atomic commit, recovery of a killed process to the last commit) is trusted; the model
     starts at "the reopened file shows the last committed state". *)
-From ID Require Import Model.Commit Proofs.CommitFacts.
+From ID Require Import Model.Tables Model.Commit Proofs.CommitFacts.
 
 (** For every operation of the read-then-write-then-read shape, every placement of the age-based
     auto-commit among its steps and every crash point inside or right after it: the durable state
@@ -15,6 +15,23 @@ Theorem C06_op_durable_is_boundary : forall ms flags s,
   forall x, In x (trace false s steps) \/ x = s_end ->
     c_durable x = c_durable s \/ c_durable x = c_working s \/ c_durable x = c_working s_end.
 Proof. exact op_durable_is_boundary. Qed.
+
+(** whole histories: whatever the operations (of that shape, explicit flushes included), wherever
+    the auto-commit fires and wherever the process dies, the crash image is the working state at
+    an operation boundary that is not older than the last flush *)
+Theorem C06_history_crash_images : forall ops T,
+  Forall (fun op => shaped (fst op) /\ length (snd op) = length (fst op)) ops ->
+  crash_ok (mkC T T false) [T] ops.
+Proof. exact history_from_flushed. Qed.
+Check (eq_refl : crash_ok = fix crash_ok (s : cstate) (since : list tables) (ops : list (list micro * list bool)) : Prop :=
+  match ops with
+  | [] => True
+  | (ms, fl) :: rest =>
+      let steps := combine ms fl in
+      let s' := run_micro false s steps in
+      (forall x, In x (trace false s steps) -> In (c_durable x) (c_working s' :: since)) /\
+      crash_ok s' (if is_flush ms then [c_working s'] else c_working s' :: since) rest
+  end).
 
 (** a flush / snapshot makes the working state durable *)
 Theorem C06_flush_makes_durable : forall mca s g,
@@ -36,5 +53,6 @@ Example C06_mid_put_commit_refuted :
 Proof. exact mid_put_commit_refuted. Qed.
 
 Print Assumptions C06_op_durable_is_boundary.
+Print Assumptions C06_history_crash_images.
 Print Assumptions C06_flush_makes_durable.
 Print Assumptions C06_mid_put_commit_refuted.
